@@ -388,7 +388,9 @@ def influence_matrix_shared_option(case, v):
 def complete_no_scenario_after_incompatibility(case, v):
     """KF14: COMPLETE analyzer: an option whose forced consequences are incompatible leaves a choice scenario without
     combinations: IndexError in _get_n_combinations (e.g. c0:n0->{n1,n2}, c1:n1->{n2}, incompatibility n1-n2)"""
-    return bool(_spec(case).get('incompat')) and '_get_n_combinations' in v.get('sig', '')
+    sig = v.get('sig', '')
+    return bool(_spec(case).get('incompat')) and 'IndexError@optimization/hierarchy/complete.py' in sig and \
+        ('_get_n_combinations' in sig or '_merge_scenarios' in sig)
 
 
 def initial_graph_infeasible_conditional_target(case, v):
